@@ -1,4 +1,4 @@
-"""Constants of demeter/result/metrics (calculator.py, core.py) and of BacktestManager for Demeter/Gen/ConstsMetrics.lean.
+"""Constants of demeter/result/metrics (calculator.py, core.py) for Demeter/Gen/ConstsMetrics.lean.
 
 Everything is read from the source text with `ast`; if a literal is missing, or the occurrences that must
 agree do not, the generator fails with a ShapeError (treated like a broken correspondence)."""
@@ -70,41 +70,4 @@ def register(add, parse, find_func, const_int, rat_of, ShapeError, module_assign
     if rf is None:
         raise ShapeError("performance_metrics: default annualized_risk_free_rate not found")
     add("metricsDefaultRiskFree", "Rat", rat_of(rf), f"exact binary value of the default risk-free rate {rf!r}")
-
-    # ---- BacktestManager (C19): does _start attach a copy of each configured market, and when is the run sequential?
-    bt = parse("demeter/core/backtest.py")
-    start = find_func(bt, "_start")
-    copies = False
-    for n in ast.walk(start):
-        if isinstance(n, ast.For) and getattr(n.iter, "attr", "") == "markets" and getattr(n.target, "id", "") == "market":
-            seen_copy = False
-            for st in n.body:
-                # market = copy.deepcopy(market)   (before broker.add_market(market))
-                if isinstance(st, ast.Assign) and getattr(st.targets[0], "id", "") == "market" and isinstance(st.value, ast.Call) \
-                        and getattr(st.value.func, "attr", getattr(st.value.func, "id", "")) == "deepcopy" \
-                        and len(st.value.args) == 1 and getattr(st.value.args[0], "id", "") == "market":
-                    seen_copy = True
-                if isinstance(st, ast.Expr) and isinstance(st.value, ast.Call) and getattr(st.value.func, "attr", "") == "add_market":
-                    copies = seen_copy
-    add("managerCopiesMarkets", "Bool", "true" if copies else "false",
-        "_start attaches copy.deepcopy(market) of every configured market (false: the configured objects themselves)")
-    run = find_func(bt, "run", cls="BacktestManager")
-    seq_shape = False
-    for n in ast.walk(run):
-        if isinstance(n, ast.If) and isinstance(n.test, ast.BoolOp) and isinstance(n.test.op, ast.Or) and len(n.test.values) == 2:
-            a, b = n.test.values
-            def is_eq_one(c, what):
-                return isinstance(c, ast.Compare) and isinstance(c.ops[0], ast.Eq) and const_int(c.comparators[0]) == 1 and what in ast.dump(c.left)
-            if is_eq_one(a, "strategies") and is_eq_one(b, "threads"):
-                seq_shape = True
-    add("managerSeqIfOneStrategyOrOneThread", "Bool", "true" if seq_shape else "false",
-        "BacktestManager.run takes the in-process path iff len(strategies) == 1 or threads == 1")
-    # market.data = data.data[market.market_info].copy(deep=False)   (a per-run view of the shared frame)
-    view = False
-    for n in ast.walk(start):
-        if isinstance(n, ast.Assign) and isinstance(n.targets[0], ast.Attribute) and n.targets[0].attr == "data" \
-                and getattr(n.targets[0].value, "id", "") == "market" and isinstance(n.value, ast.Call) \
-                and getattr(n.value.func, "attr", "") == "copy" and isinstance(n.value.func.value, ast.Subscript):
-            view = True
-    add("managerDataView", "Bool", "true" if view else "false",
-        "_start assigns a copy (DataFrame.copy) of the shared data frame to market.data (false: the shared frame itself)")
+    # the source flags of BacktestManager (C19) live in tools/consts_manager.py -> Demeter/Gen/ConstsManager.lean
